@@ -22,7 +22,7 @@ type Finding struct {
 	Predicate   string         `json:"predicate,omitempty"`
 	Params      map[string]any `json:"params,omitempty"`
 	What        string         `json:"what"`
-	Witness     string         `json:"witness,omitempty"`
+	Witness     *mon.Case      `json:"witness,omitempty"`
 	Description string         `json:"description,omitempty"`
 }
 
@@ -32,7 +32,36 @@ type findingsFile struct {
 
 // predicates decide whether a violation's arguments fall inside a known
 // finding's (narrow) argument set.
-var predicates = map[string]func(v *mon.Violation, f *Finding) bool{}
+var predicates = map[string]func(v *mon.Violation, f *Finding) bool{
+	// the first Decimal operand is a negative zero (any exponent)
+	"operand0_is_negative_zero": func(v *mon.Violation, f *Finding) bool {
+		n, ok := operand(&v.Case, 0)
+		return ok && n.IsZero() && n.Neg
+	},
+}
+
+// runWitnesses re-judges the recorded witness case of every open finding of
+// this property, so that a listed finding is observed (and reported as
+// KNOWN-FINDING) on every run as long as it still reproduces.
+func runWitnesses(ctx *Ctx, p *Prop) {
+	fs, err := loadFindings()
+	if err != nil || p.Replay == nil {
+		return
+	}
+	sh := mon.NewShard(0, "witness")
+	for i := range fs {
+		f := &fs[i]
+		if f.Status != "open" || f.Property != ctx.Prop || f.Witness == nil {
+			continue
+		}
+		cs := *f.Witness
+		cs.Prop = ctx.Prop
+		setDefault(cs.Def)
+		p.Replay(ctx, sh, &cs)
+		setDefault(0)
+	}
+	ctx.Col.Merge(sh)
+}
 
 func loadFindings() ([]Finding, error) {
 	path := os.Getenv("VERIF_KNOWN")
